@@ -405,7 +405,13 @@ func (server *Server) callService(ctx *Context) {
 func (server *Server) sendResponse(ctx *Context) {
 	var reply interface{}
 	if len(ctx.Error) == 0 && ctx.upgrade.NoResponse != noResponse {
-		reply = ctx.reply.Interface()
+		if ctx.reply == funcs.ZeroValue {
+			// Heartbeats and stream control messages never carry a reply,
+			// whatever flags the peer sent with them.
+			ctx.upgrade.NoResponse = noResponse
+		} else {
+			reply = ctx.reply.Interface()
+		}
 	}
 	err := ctx.codec.WriteResponse(ctx, reply)
 	if err != nil {
